@@ -18,7 +18,8 @@ RULE = ('A victim instance and an active peer (own service, browser, periodic tr
         'a grid {0,1,174,176,349,351,574,576,799,801,1100} ms after a chosen operation (during probing, between announcements, with '
         'answers queued, TC train held, browser start-up, lookups pending), or aimed (to within -1..+5 loop iterations of 1 us, 20 us or '
         '1 ms virtual cost) at the instant the periodic 10 s purge timer comes due, directly or 250 ms earlier (goodbyes first). '
-        'The victim also carries a plain RecordUpdateListener that is never removed. Afterwards: injected traffic, peer announcements, a second '
+        'The victim also carries a plain RecordUpdateListener that is never removed; about one case in sixty adds a thread-based ServiceBrowser '
+        'whose listener takes 200 ms of real time per callback and has 3-4 callbacks outstanding at the close. Afterwards: injected traffic, peer announcements, a second '
         'async_close(), and 3 h of virtual time. Oracle: nothing is transmitted by the victim and no listener callback fires after '
         '(ServiceListener or RecordUpdateListener) after the first close returned, the loop exception handler stays empty, every in-flight coroutine finishes with a result or '
         'NotRunningException/NonUniqueNameException, services in the registry at close time got three complete goodbyes before the '
@@ -26,7 +27,7 @@ RULE = ('A victim instance and an active peer (own service, browser, periodic tr
         'it was pending (registration in progress, queued answers, TC hold, browser start-up or a pending lookup).')
 ASSUMPTIONS = [
     'close from a non-loop thread (Zeroconf.close()) shares _close/_async_close with the path exercised here; the thread hand-off '
-    'itself is not executed in virtual time',
+    'itself is not executed in virtual time (the thread-based ServiceBrowser is: its callbacks run in real time on its own thread)',
     'lookups are bounded by their own timeout; 3 h of virtual time is taken as "never" for hang detection',
 ]
 BUDGET = {'quick': {'examples': 1500}, 'thorough': {'examples': 12000, 'shards': 16}}
@@ -76,7 +77,10 @@ def scenario(draw) -> Dict[str, Any]:
         close = {'rel': draw(st.integers(0, n - 1)), 'delta': draw(st.sampled_from(GRID))}
     else:
         close = {'at': draw(st.one_of(st.sampled_from([0, 1, 500, 1500, 3500]), st.integers(0, 4500)))}
-    return {'jitter': draw(st.integers(0, 10**6)), 'ops': ops, 'close': close,
+    # rarely (it costs real time): a thread-based ServiceBrowser with a slow listener has several callbacks outstanding when the
+    # close is requested on the loop - they may run before async_close() returns, never after
+    sync = {'n': draw(st.sampled_from([3, 4])), 'sleep_ms': 200} if draw(st.sampled_from([False] * 59 + [True])) else None
+    return {'jitter': draw(st.integers(0, 10**6)), 'ops': ops, 'close': close, 'sync': sync,
             'second_close_after_ms': draw(st.sampled_from([0, 1, 1000, 60000])),
             'post_traffic': draw(st.integers(0, 3))}
 
@@ -113,6 +117,30 @@ class PlainListener:
         pass
 
 
+class SlowSyncListener:
+    """ServiceListener for the thread-based ServiceBrowser: every callback takes real time; start and end are logged together with
+    whether async_close() had already returned."""
+
+    def __init__(self, run: 'Exec', sleep_s: float) -> None:
+        self.run, self.sleep_s = run, sleep_s
+
+    def _cb(self, kind: str, name: str) -> None:
+        import time as _t
+
+        self.run.sync_log.append(('start', kind, name, self.run.close_returned))
+        _t.sleep(self.sleep_s)
+        self.run.sync_log.append(('end', kind, name, self.run.close_returned))
+
+    def add_service(self, zc: Any, type_: str, name: str) -> None:
+        self._cb('add', name)
+
+    def remove_service(self, zc: Any, type_: str, name: str) -> None:
+        self._cb('remove', name)
+
+    def update_service(self, zc: Any, type_: str, name: str) -> None:
+        self._cb('update', name)
+
+
 class Exec:
     def __init__(self, case: Dict[str, Any]) -> None:
         self.case = case
@@ -126,6 +154,9 @@ class Exec:
         self.first_exc: Optional[BaseException] = None
         self.pending_at_close: List[str] = []
         self.op_times: Dict[int, float] = {}
+        self.sync_log: List[Tuple[str, str, str, bool]] = []
+        self.close_returned = False
+        self.sync_thread: Any = None
 
     async def main(self, w: sim.World) -> None:
         from zeroconf.asyncio import AsyncServiceBrowser, AsyncServiceInfo
@@ -139,6 +170,11 @@ class Exec:
         AsyncServiceBrowser(p.zc, TYPES, listener=sim.RecListener(w, 'peer'))
         self.plain = PlainListener(w, x)
         x.zc.async_add_listener(self.plain, None)      # an application's own RecordUpdateListener, never removed
+        sync = self.case.get('sync')
+        if sync:
+            sl = SlowSyncListener(self, sync['sleep_ms'] / 1000.0)
+            x.zc.add_service_listener(TYPES[1], sl)
+            self.sync_thread = x.zc.browsers[sl]
         t_base = w.now_ms
         ops = sorted(enumerate(self.case['ops']), key=lambda io: (io[1]['t'], io[0]))
         close = self.case['close']
@@ -175,6 +211,10 @@ class Exec:
                                                     for b in browsers)
                 self.in_registry_at_close = [rp.Svc(VICTIM_SVCS[k]) for k in sorted(self.registered)
                                              if x.zc.registry.async_get_info_name(VICTIM_SVCS[k]['name'].lower()) is not None]
+                if sync and x.endpoints and not x.endpoints[0].closed:
+                    data = wire.encode({'id': 0, 'flags': 0x8400, 'qd': [], 'an': [rp.wire_rr_of_ident(
+                        ('PTR', TYPES[1], f'slow{k}.{TYPES[1]}'), 4500) for k in range(sync['n'])], 'ns': [], 'ar': []})
+                    w.net.inject(x, data, ('10.0.0.9', 5353))
                 w.gseq += 1
                 self.g_close_call, self.t_close_call = w.gseq, w.now_ms
                 try:
@@ -183,10 +223,13 @@ class Exec:
                     if isinstance(e, (HarnessError, KeyboardInterrupt)):
                         raise
                     self.first_exc = e
+                self.close_returned = True
                 x.closed = True
                 w.gseq += 1
                 self.g_close_done, self.t_close_done = w.gseq, w.now_ms
                 closed = True
+                if self.sync_thread is not None:
+                    self.sync_thread.join(timeout=sync['n'] * sync['sleep_ms'] / 1000.0 + 2.0)     # real time; harness only
                 continue
             if closed:
                 continue   # operations scheduled after the close are dropped (use-after-close is not the subject)
@@ -306,6 +349,12 @@ def check(case: Dict[str, Any]) -> Dict[str, Any]:
         if cb:
             raise Violation('browser callback fired after async_close had returned',
                             dict(det, callback=(cb[0]['kind'], cb[0]['name'], rel(cb[0]['t'] * 1000))), tag='callback-after-close')
+    late_sync = [e for e in ex.sync_log if e[3]]
+    if late_sync:
+        raise Violation('a thread-based ServiceBrowser ran listener callbacks after async_close had returned',
+                        dict(det, late=[(e[0], e[1], e[2]) for e in late_sync][:6], delivered=len(ex.sync_log) // 2), tag='sync-callback-after-close')
+    if ex.sync_thread is not None and ex.sync_thread.is_alive():
+        raise Violation('the thread of a thread-based ServiceBrowser is still alive after async_close returned', det, tag='sync-thread-alive')
     cb = [c for c in ex.plain.calls if c['g'] > ex.g_close_done]
     if cb:
         raise Violation('RecordUpdateListener.async_update_records called after async_close had returned',
@@ -357,6 +406,9 @@ def check(case: Dict[str, Any]) -> Dict[str, Any]:
         busy = True
     if 'cleanup' in case['close']:
         classes.append('close-aimed-at-purge-timer')
+    if ex.sync_log:
+        classes.append('thread-based-browser-with-callbacks-outstanding-at-close')
+        busy = True
     if any(o[1] == 'raised' for o in outcomes):
         classes.append('task-raised-documented-exception')
     return {'nontrivial': busy, 'classes': classes, 'max': {'ops': len(case['ops'])},
